@@ -218,6 +218,8 @@ def real_bank_oracle(ctx):
     # non-contiguous signals (fixed in every parameter): computer, memory layout, dtype, bank
     LAYOUTS = {4: ("stft", "step2", np.float64, "tri"), 10: ("stft", "column", np.float32, "gabor"),
                16: ("si", "step2", np.float64, "gabor"), 22: ("stft", "negative", np.float64, "fbank")}
+    # streams handed over to a copy of the computer (fixed in every parameter): computer, bank
+    COPIES = {3: ("si", "gabor"), 9: ("stft", "tri"), 15: ("si", "gammatone"), 21: ("stft", "gabor")}
     for case_no in range(n):
         kind = r.choice(["gabor", "tri", "fbank", "gammatone"])
         scale = r.choice(["mel", "bark", "linear", "octave"])
@@ -225,9 +227,13 @@ def real_bank_oracle(ctx):
             kind, scale = BURSTS[case_no][1], "mel"
         if case_no in LAYOUTS:
             kind, scale = LAYOUTS[case_no][3], "mel"
+        if case_no in COPIES:
+            kind, scale = COPIES[case_no][1], "mel"
         sc_arg = {"mel": "mel", "bark": "bark", "linear": dict(name="linear", low_hz=0.0), "octave": dict(name="octave", low_hz=40.0)}[scale]
         nf = r.choice([3, 5, 8])
         lo, hi = r.choice([(20.0, 3800.0), (100.0, 2000.0), (300.0, 4000.0)])
+        if case_no in LAYOUTS or case_no in COPIES or case_no in BURSTS:
+            nf, lo, hi = 8, 100.0, 2000.0    # long supports: inside the SI precondition at a 2 ms shift
         try:
             if kind == "gabor":
                 b = filters.GaborFilterBank(sc_arg, num_filts=nf, low_hz=lo, high_hz=hi, sampling_rate=rate)
@@ -259,8 +265,13 @@ def real_bank_oracle(ctx):
         if case_no in BURSTS:
             shift_ms = 3.0
         if case_no in LAYOUTS:
-            which, shift_ms = LAYOUTS[case_no][0], 5.0
+            which = LAYOUTS[case_no][0]
+            shift_ms = 2.0 if which == "si" else 5.0
             style = ["causal", "centered"][(case_no // 6) % 2]
+        if case_no in COPIES:
+            which = COPIES[case_no][0]
+            shift_ms = 2.0 if which == "si" else 5.0
+            style = ["centered", "causal"][(case_no // 6) % 2]
         case = dict(computer=which, bank=kind, scale=scale, num_filts=nf, low=lo, high=hi, style=style, shift_ms=shift_ms, **flags)
         try:
             if which == "stft":
@@ -351,18 +362,53 @@ def real_bank_oracle(ctx):
             ctx.violation(case, "no exception", "%s: %s" % (type(e).__name__, e), "streaming/full computation raises",
                           tags=dict(computer=which, clause="raises", exc=type(e).__name__))
             continue
-        for name, got in (("stream", st), ("fbf", fbf)):
+        extra = []
+        if case_no % 6 == 3:
+            # the stream handed over to a COPY of the computer half way (copy.deepcopy / pickle round trip: a worker process,
+            # a checkpoint), and a copy of the idle computer used for a whole stream: a copy is a computer with the same
+            # configuration and the same utterance in progress
+            how = ["deepcopy", "pickle"][(case_no // 12) % 2]
+            try:
+                parts, off = [], 0
+                half = len(chunks) // 2
+                for c in chunks[:half]:
+                    parts.append(comp.compute_chunk(x[off : off + c]))
+                    off += c
+                cl = dict(common.clone_routes(comp))[how]
+                if isinstance(cl, Exception):
+                    raise cl
+                if comp.started:
+                    comp.finalize()
+                for c in chunks[half:]:
+                    parts.append(cl.compute_chunk(x[off : off + c]))
+                    off += c
+                parts.append(cl.finalize())
+                extra.append(("stream continued on a %s copy" % how, np.concatenate(parts)))
+                cl2 = dict(common.clone_routes(comp))[how]
+                if isinstance(cl2, Exception):
+                    raise cl2
+                parts, off = [], 0
+                for c in chunks:
+                    parts.append(cl2.compute_chunk(x[off : off + c]))
+                    off += c
+                parts.append(cl2.finalize())
+                extra.append(("stream on a %s copy of the idle computer" % how, np.concatenate(parts)))
+                ctx.count("copy_handoff:" + how)
+            except Exception as e:
+                ctx.violation(dict(case, copy=how), "no exception", "%s: %s" % (type(e).__name__, e), "streaming on a copied computer raises",
+                              tags=dict(computer=which, clause="raises", exc=type(e).__name__))
+        for name, got in [("stream", st), ("fbf", fbf)] + extra:
             tol = 1e-8 if fdt is np.float64 else 2e-5
             # the element type of the result follows the chunks; when no chunk at all reached the computer (an empty
             # signal cut into zero chunks) the streaming side cannot know it and the (empty) matrices are compared by shape
-            dtype_known = (len(chunks) > 0) if name == "stream" else (N > 0)
+            dtype_known = (len(chunks) > 0) if name.startswith("stream") else (N > 0)
             if not dtype_known:
                 ctx.count("dtype_unknowable_no_chunk")
             if got.shape != full.shape or (dtype_known and got.dtype != full.dtype) or not np.allclose(got, full, rtol=tol, atol=tol / 10):
                 ctx.violation(case, dict(shape=list(full.shape)),
                               dict(shape=list(got.shape), maxdiff=float(np.max(np.abs(got - full))) if got.shape == full.shape and got.size else None),
                               "%s == compute_full (library bank, up to round-off)" % name,
-                              tags=dict(computer=which, clause=name + "_eq_full"))
+                              tags=dict(computer=which, clause=name.split(" ")[0] + "_eq_full"))
 
 
 def replay(rp):
